@@ -116,11 +116,15 @@ fn panic_key(msg: &str) -> String {
 fn tl_case<S: Shape>(r: &mut Rng, acc: &mut Acc, out: &mut Out, stream: u64, index: u64, full_range_ints: bool) {
     let kinds = &S::KINDS[..S::N_ANIM];
     let spec = hostile_tl(r, kinds, full_range_ints, None);
+    let spec0 = spec.clone();
     let case = |what: &str, t: f32| {
-        case_json(stream, index, vec![("shape", J::s(S::NAME)), ("timeline", spec.json()), ("t", J::F(t as f64)), ("t_bits", J::U(t.to_bits() as u64)), ("clause", J::s(what))])
+        case_json(stream, index, vec![("shape", J::s(S::NAME)), ("timeline", spec0.json()), ("t", J::F(t as f64)), ("t_bits", J::U(t.to_bits() as u64)), ("clause", J::s(what))])
     };
     acc.eval();
-    let tl = match catch(|| S::build_tl(&spec)) {
+    // one timeline in six leaves some of the timing setters out: a builder that was told nothing about its
+    // duration / delay / repeat / reverse is a valid configuration like any other (whatever its defaults are)
+    let omit: u8 = if r.chance(1, 6) { 1 + r.below(15) as u8 } else { 0 };
+    let tl = match catch(|| crate::shapes::with_omitted(omit, || S::build_tl(&spec))) {
         Ok(t) => t,
         Err(m) => {
             out.lines.push(format!("{stream}|{index}|build|PANIC({m})"));
@@ -129,6 +133,28 @@ fn tl_case<S: Shape>(r: &mut Rng, acc: &mut Acc, out: &mut Out, stream: u64, ind
         }
     };
     let mut tl = tl;
+    let mut spec = spec;
+    if omit != 0 {
+        // from here on the specification describes what the builder reports for the omitted settings (probe times
+        // are derived from it); nothing is demanded of the defaults beyond what is demanded of any configuration
+        if let Ok((d, c, _, rep)) = catch(|| (tl.delay(), tl.cycle_duration(), tl.duration(), tl.repeat())) {
+            if omit & 1 != 0 { spec.cycle = c.unwrap_or(f32::NAN); }
+            if omit & 2 != 0 { spec.delay = d; }
+            if omit & 4 != 0 { spec.repeat = Rep::from_mina(rep); }
+            if !(spec.cycle > 0.0 && spec.cycle.is_finite() && spec.delay.is_finite()) {
+                acc.violation(
+                    "c20:unconfigured-builder",
+                    format!("a builder whose timing was left (partly) unconfigured (omitted setters mask {omit:#b}) reports cycle {:?}, delay {d}: not a valid configuration (cycle > 0, finite delay)", c),
+                    case("defaults form a valid configuration", 0.0),
+                );
+                return;
+            }
+        }
+    }
+    let spec = spec;
+    let case = |what: &str, t: f32| {
+        case_json(stream, index, vec![("shape", J::s(S::NAME)), ("timeline", spec.json()), ("omitted_timing_setters_mask", J::U(omit as u64)), ("t", J::F(t as f64)), ("t_bits", J::U(t.to_bits() as u64)), ("clause", J::s(what))])
+    };
     if r.chance(1, 3) {
         let mut v = S::default();
         for i in 0..S::n() {
@@ -206,6 +232,45 @@ fn tl_case<S: Shape>(r: &mut Rng, acc: &mut Acc, out: &mut Out, stream: u64, ind
     }
 }
 
+/// The empty merged timeline (and one nested inside another merge) is a valid timeline: its accessors must be finite
+/// and nothing may panic or be written.
+fn empty_merge_case<S: Shape>(r: &mut Rng, acc: &mut Acc, out: &mut Out, stream: u64, index: u64) {
+    use mina::MergedTimeline;
+    let case = |what: &str| case_json(stream, index, vec![("shape", J::s(S::NAME)), ("timeline", J::s("MergedTimeline::of([]) / MergedTimeline::of([MergedTimeline::of([])])")), ("clause", J::s(what))]);
+    let t = *r.pick(&[0.0f32, 1.0, 1e30, f32::MAX, 0.125]);
+    let res = catch(|| {
+        let e = MergedTimeline::<S::Tl>::of(Vec::new());
+        let n = MergedTimeline::of([MergedTimeline::<S::Tl>::of(Vec::new()), MergedTimeline::<S::Tl>::of(Vec::new())]);
+        let mut v = S::default();
+        for i in 0..S::n() { v.set(i, 5.0); }
+        let before = v.all_bits();
+        e.update(&mut v, t);
+        n.update(&mut v, t);
+        let mut e2 = e.clone();
+        e2.start_with(&v);
+        e2.update(&mut v, t);
+        (e.delay(), e.duration(), e.cycle_duration(), e.repeat(), n.delay(), n.duration(), n.cycle_duration(), n.repeat(), before == v.all_bits())
+    });
+    acc.eval();
+    match res {
+        Ok((d, dur, c, rep, nd, ndur, nc, nrep, untouched)) => {
+            out.lines.push(format!("{stream}|{index}|empty-merge|{:x},{:x},{:?},{:?},{:x},{:x},{:?},{:?},{untouched}", d.to_bits(), dur.to_bits(), c.map(|x| x.to_bits()), rep, nd.to_bits(), ndur.to_bits(), nc.map(|x| x.to_bits()), nrep));
+            let fin = |x: f32| x.is_finite();
+            if !(fin(d) && fin(dur) && fin(nd) && fin(ndur) && c.map_or(true, fin) && nc.map_or(true, fin)) || rep == mina::Repeat::Infinite || nrep == mina::Repeat::Infinite {
+                acc.violation("c20:empty-merge-accessors", format!("empty merged timeline reports delay {d} duration {dur} cycle {:?} repeat {:?}; nested: delay {nd} duration {ndur} cycle {:?} repeat {:?} — not finite although nothing in it is infinite", c, rep, nc, nrep), case("finite in, finite out"));
+            }
+            if !untouched {
+                acc.violation("c20:empty-merge-writes", "evaluating an empty merged timeline changed the target".to_string(), case("empty merge touches nothing"));
+            }
+            acc.sig("empty-merge".to_string());
+        }
+        Err(m) => {
+            out.lines.push(format!("{stream}|{index}|empty-merge|PANIC({m})"));
+            acc.violation(panic_key(&m), format!("empty merged timeline panicked: {m}"), case("no panic"));
+        }
+    }
+}
+
 fn anim_case<S: Shape>(r: &mut Rng, acc: &mut Acc, out: &mut Out, index: u64) {
     let kinds = &S::KINDS[..S::N_ANIM];
     let mut states = Vec::new();
@@ -273,7 +338,11 @@ fn workload(seed: u64, thorough: bool, rc: Option<(u64, u64)>, run: &mut Run) ->
             let mut out = Out { lines: vec![] };
             let mut r = Rng::derive(seed, STREAM_TL, i);
             let shape = r.usize(crate::shapes::N_SHAPES);
-            crate::with_shape!(shape, tl_case(&mut r, acc, &mut out, STREAM_TL, i, false));
+            if i % 64 == 7 {
+                crate::with_shape!(shape, empty_merge_case(&mut r, acc, &mut out, STREAM_TL, i));
+            } else {
+                crate::with_shape!(shape, tl_case(&mut r, acc, &mut out, STREAM_TL, i, false));
+            }
             local.push((STREAM_TL, i, out.lines));
         }
         for i in my_cases(rc, STREAM_INT, n_int, w, nw) {
